@@ -4,7 +4,7 @@
    command.go (exit status).
 
    File-system model (DESIGN A.9): a path is a sequence of segments below the scratch base directory.
-     top/repo     repository (.git, .github/workflows/a.yml, .github/workflows/sub/b.yml), config = the
+     top/repo     repository (.git - a directory or, for a linked worktree, a regular file -, .github/workflows/a.yml, .github/workflows/sub/b.yml), config = the
                   configuration of the run (or none)
      top/repo-b   sibling repository whose name has the prefix "repo" (a.yml), constant config CfgB
      top/other    unrelated directory: x.yml (outside every repository), the -config-file target
@@ -21,6 +21,7 @@
      "icase"     (?i)FRAGMENT-IN-WRONG-CASE      matches {k}        "start"  ^FRAGMENT      matches {k}
      "wrongcase" FRAGMENT-IN-WRONG-CASE          matches nothing    "end"    TAIL$          matches {k}
                                                                     "full"   ^MESSAGE$      matches {k}
+     "empty"     the empty regular expression    matches everything (k unused)
    Whether a pattern matches a message never depends on the other patterns of the list or their order.
 
    Declarative layer : Attribute / RootRel / Applicable / DeclOut / DeclExits - what C15 demands:
@@ -43,16 +44,18 @@ CONSTANTS N,          \* number of diagnostics per ordinary workflow file
           GlobNames,  \* names of glob forms (keys of Globs) to try
           MaxEntries, \* max number of `paths` entries
           CwdKinds, Spellings, ArgNames, CfgSrcs, CfgFaults, FlagFaults,
+          GitKinds,       \* what .git of top/repo is: "dir", or "file" (linked worktree / submodule: "gitdir: ...")
           Vias, CwdVias   \* through which alias the files / the cwd are named: "real", "link", "plink"
 
 Range(f) == {f[x] : x \in DOMAIN f}
 Ids == 1 .. N
 AllIds == [i \in Ids |-> i]
 P(ids) == [f |-> "set", s |-> ids, k |-> 0]
-Form(fm, id) == [f |-> fm, s |-> {}, k |-> id]
+Form(fm, id) == [f |-> fm, s |-> {}, k |-> IF fm = "empty" THEN 0 ELSE id]
 \* the abstract relation "pattern p matches message d"
 Matches(p, d) == CASE p.f = "set" -> d \in p.s
                    [] p.f = "wrongcase" -> FALSE
+                   [] p.f = "empty" -> TRUE       \* the empty regular expression matches every message
                    [] OTHER -> d = p.k          \* icase, start, end, full
 
 ----------------------------------------------------------------------------
@@ -126,6 +129,7 @@ Resolve(cwd, arg) == Walk(IF arg.abs THEN <<>> ELSE cwd, arg.segs)
 L(v) == [k |-> "lit", v |-> v]
 ExtSeg == [k |-> "ext", v |-> ".yml"]      \* *.yml
 AnySeg == [k |-> "any", v |-> ""]          \* *
+PreSeg == [k |-> "pre", v |-> "a."]        \* a.*
 Deep == [k |-> "deep", v |-> ""]        \* **
 Globs == [exact      |-> <<L(".github"), L("workflows"), L("a.yml")>>,
           subexact   |-> <<L(".github"), L("workflows"), L("sub"), L("b.yml")>>,
@@ -138,18 +142,22 @@ Globs == [exact      |-> <<L(".github"), L("workflows"), L("a.yml")>>,
           lexact     |-> <<L(".github"), L("workflows"), L("l.yml")>>,
           parentform |-> <<L("repo"), L(".github"), L("workflows"), L("a.yml")>>,
           nestedform |-> <<L("workflows"), L("a.yml")>>,
-          bareform   |-> <<L("a.yml")>>,
+          bareform   |-> <<L("a.yml")>>,      \* globs without "/" match only a root-relative path without "/"
+          bareext    |-> <<ExtSeg>>,
+          bareany    |-> <<AnySeg>>,
+          barepre    |-> <<PreSeg>>,
           dotform    |-> <<L("."), L(".github"), L("workflows"), L("a.yml")>>]
 GlobOrder == <<"exact", "subexact", "deepname", "dirdeep", "starext", "deepext", "anydir", "nomatch",
-               "parentform", "nestedform", "bareform", "dotform", "lexact">>
+               "parentform", "nestedform", "bareform", "dotform", "lexact", "bareext", "bareany", "barepre">>
 GlobIdx(g) == CHOOSE i \in DOMAIN GlobOrder : GlobOrder[i] = g
-SegText(h) == CASE h.k = "lit" -> h.v [] h.k = "ext" -> "*" \o h.v [] h.k = "any" -> "*" [] h.k = "deep" -> "**"
+SegText(h) == CASE h.k = "lit" -> h.v [] h.k = "ext" -> "*" \o h.v [] h.k = "any" -> "*" [] h.k = "deep" -> "**" [] h.k = "pre" -> h.v \o "*"
 RECURSIVE GlobText(_)
 GlobText(g) == IF Len(g) = 1 THEN SegText(g[1]) ELSE SegText(g[1]) \o "/" \o GlobText(Tail(g))
 
 SegMatch(h, s) == CASE h.k = "lit" -> s = h.v
                     [] h.k = "ext" -> s \in YmlNames
                     [] h.k = "any" -> TRUE
+                    [] h.k = "pre" -> s = "a.yml"
                     [] h.k = "deep" -> FALSE
 RECURSIVE GMatch(_, _)
 GMatch(g, p) ==
@@ -283,7 +291,7 @@ Vector(r, st) ==
   IF st # "done" THEN ToJson([final |-> FALSE]) ELSE
   LET fs == Named(r)
       lint == r.ff = "none" /\ ~Fatal(r) IN
-  ToJson([final |-> st = "done", cwdk |-> r.cwdk, cwd |-> NCwd(r), via |-> r.via, cvia |-> r.cvia, sp |-> r.sp, argn |-> r.argn,
+  ToJson([final |-> st = "done", cwdk |-> r.cwdk, cwd |-> NCwd(r), via |-> r.via, cvia |-> r.cvia, git |-> r.git, sp |-> r.sp, argn |-> r.argn,
           args |-> Args(r), cli |-> r.cli, cfg |-> CfgJson(r.cfg), cfgb |-> CfgJson(CfgB), ff |-> r.ff,
           lint |-> lint, exits |-> DeclExits(r), opexits |-> OpExits(r),
           files |-> IF lint THEN [i \in DOMAIN fs |->
@@ -293,7 +301,7 @@ Vector(r, st) ==
                         tags |-> Tags(r, i), rootrel |-> RootRel(fs[i]), display |-> OpDisplay(r, i)]]
                     ELSE <<>>])
 
-R0 == [cwdk |-> "root", sp |-> "rel", argn |-> "a", via |-> "real", cvia |-> "real", cli |-> <<>>, cfg |-> NoCfg, ff |-> "none"]
+R0 == [cwdk |-> "root", sp |-> "rel", argn |-> "a", via |-> "real", cvia |-> "real", git |-> "dir", cli |-> <<>>, cfg |-> NoCfg, ff |-> "none"]
 Init == run = R0 /\ stage = "args" /\ tc = Vector(R0, "args")
 
 SetArgs == /\ stage = "args"
@@ -307,11 +315,11 @@ SetSp == /\ stage = "sp"
          /\ stage' = "via"
 \* through which alias the files and the cwd are named (only aliases that lead there)
 SetVia == /\ stage = "via"
-          /\ \E v \in Vias, c \in CwdVias :
+          /\ \E v \in Vias, c \in CwdVias, g \in GitKinds :
                /\ RepoMode(run) => v = "real"
                /\ v # "real" => \E i \in DOMAIN ArgLists[run.argn] : NameVia(ArgLists[run.argn][i], v) # ArgLists[run.argn][i]
                /\ c # "real" => NameVia(Cwd(run), c) # Cwd(run)
-               /\ run' = [run EXCEPT !.via = v, !.cvia = c]
+               /\ run' = [run EXCEPT !.via = v, !.cvia = c, !.git = g]
           /\ stage' = "fault"
 \* faults are combined with the default filter settings only
 SetFault == /\ stage = "fault"
